@@ -144,6 +144,8 @@ Fixpoint opts_same (a b : list opt) : bool :=
 Definition C13_srv_fwdext_ok (local_port : Z) (q : rx) (obs : list sobs) : bool :=
   if for_service local_port q || match rx_l4 q with Scmp _ _ _ => true | _ => false end then true
   else forallb (fun o => rx_ok (so_rx o) &&
+                         (* traffic class and flow id are the packet's own *)
+                         (h_tc (rx_hdr (so_rx o)) =? h_tc (rx_hdr q)) && (h_flow (rx_hdr (so_rx o)) =? h_flow (rx_hdr q)) &&
                          opts_same (strip_ts (rx_opts (so_rx o)))
                                    (if h_next (rx_hdr q) =? E2E_CLASS then strip_ts (rx_opts q) else [])) obs.
 
